@@ -42,6 +42,7 @@ struct JobSpec {
     std::vector<int> children;
     bool terminates = false;
     int extra_points = 0;
+    bool rendezvous = false; // wait (spinning) until `rendezvous_target` jobs run at the same time
 };
 
 struct State {
@@ -52,12 +53,16 @@ struct State {
     HInt enq_called[MAXJOBS], enq_returned[MAXJOBS];
     HInt terminate_called{0};
     vsched::Atomic<int> dummy{0};
+    vsched::Atomic<int> arrived{0};
+    int rendezvous_target = 0;
     HInt init_calls{0};
     void reset() {
         jobs.clear();
         for (int i = 0; i < MAXJOBS; ++i) started[i] = 0, finished[i] = 0, effect[i] = 0, enq_called[i] = 0, enq_returned[i] = 0;
         terminate_called = 0;
         init_calls = 0;
+        arrived.store(0);
+        rendezvous_target = 0;
         pool = nullptr;
     }
 };
@@ -80,6 +85,10 @@ void job_body(int id) {
     st.started[id]++;
     const JobSpec& js = st.jobs[(size_t)id];
     for (int i = 0; i < js.extra_points; ++i) (void)st.dummy.load();
+    if (js.rendezvous) { // all workers of a huge pool busy at the same time
+        st.arrived.fetch_add(1);
+        while (st.arrived.load() < st.rendezvous_target) {}
+    }
     for (int c : js.children) enqueue_job(c);
     if (js.terminates) {
         st.terminate_called = true;
@@ -360,8 +369,14 @@ PBT_PROPERTY(thread_pool_scale) {
     st.reset();
     Program g;
     int shape = (int)src.range(0, 4);
-    g.P = (int)src.weighted({1, 1, 1, 1}) == 0 ? (int)src.range(1, 4) : (int)src.range(5, 16);
-    g.tmpl = (int)src.weighted({5, 2, 2, 1}); // closed rounds, ext enqueuers, terminate-from-job, two waiters
+    // workers: 1..4 | 5..16 | (1 case in 24) 250..330: more workers than any 8-bit counter can count
+    {
+        size_t pc = src.weighted({6, 17, 1});
+        g.P = pc == 0 ? (int)src.range(1, 4) : pc == 1 ? (int)src.range(5, 16) : (int)src.range(250, 330);
+    }
+    const bool huge_pool = g.P >= 250;
+    if (huge_pool) shape = 0, g.tmpl = 0;
+    g.tmpl = huge_pool ? 0 : (int)src.weighted({5, 2, 2, 1}); // closed rounds, ext enqueuers, terminate-from-job, two waiters
     if (g.tmpl == 3) g.n_ext = 1;
     if (g.tmpl == 1) g.n_ext = 1, g.main_waits_concurrently = src.boolean();
     auto new_job = [&]() {
@@ -372,8 +387,14 @@ PBT_PROPERTY(thread_pool_scale) {
     static const char* snames[] = {"many_independent", "long_chain", "wide_fanout", "chains_and_fans", "two_level_bursts"};
     switch (shape) {
     case 0: { // many independent jobs: the queue is far longer than the number of workers
-        int n = (int)src.range(30, 400);
-        for (int i = 0; i < n; ++i) roots.push_back(new_job());
+        int n = huge_pool ? g.P + (src.boolean() ? 0 : (int)src.range(1, 100)) : (int)src.range(30, 400);
+        for (int i = 0; i < n; ++i) {
+            int j = new_job();
+            roots.push_back(j);
+            // huge pool: the first P jobs meet at a rendezvous, so that all P workers are busy at once
+            if (huge_pool && i < g.P) st.jobs[(size_t)j].rendezvous = true;
+        }
+        if (huge_pool) st.rendezvous_target = g.P;
         break;
     }
     case 1: { // long chains: job enqueues one job enqueues one job ...
@@ -435,7 +456,7 @@ PBT_PROPERTY(thread_pool_scale) {
     switch (g.tmpl) {
     case 0: {
         // split the roots over 1..3 rounds (reuse after loop_until_empty)
-        int nr = (int)src.range(1, 3);
+        int nr = huge_pool ? 1 : (int)src.range(1, 3); // the rendezvous needs all jobs in one round
         g.rounds.assign((size_t)nr, std::vector<int>());
         for (size_t i = 0; i < roots.size(); ++i) g.rounds[i * (size_t)nr / roots.size()].push_back(roots[i]);
         break;
@@ -455,7 +476,7 @@ PBT_PROPERTY(thread_pool_scale) {
     }
     pbt::label(tnames[g.tmpl]);
     pbt::label(snames[shape]);
-    pbt::label(g.P >= 9 ? "workers>=9" : g.P >= 5 ? "workers=5..8" : "workers<=4");
+    pbt::label(g.P >= 250 ? "workers>=250" : g.P >= 9 ? "workers>=9" : g.P >= 5 ? "workers=5..8" : "workers<=4");
     pbt::label(st.jobs.size() >= 256 ? "jobs>=256" : st.jobs.size() >= 64 ? "jobs=64..255" : "jobs<64");
     PBT_LOG("scale shape=" << snames[shape] << " template=" << tnames[g.tmpl] << " workers=" << g.P << " jobs=" << st.jobs.size() << "\n");
     vsched::Options opt;
